@@ -1,10 +1,12 @@
 #!/bin/sh
 # Builds the framework from files on disk only (offline). Warms the Go build cache for all three binaries.
 export GOFLAGS=-mod=mod GOPROXY=off GOSUMDB=off GOTOOLCHAIN=local
-cd /verif/harness || exit 2
-mkdir -p /verif/bin /verif/.work /verif/evidence /verif/replays
+: "${VERIF_ROOT:=$(cd "$(dirname "$0")" && pwd)}"
+export VERIF_ROOT
+cd $VERIF_ROOT/harness || exit 2
+mkdir -p $VERIF_ROOT/bin $VERIF_ROOT/.work $VERIF_ROOT/evidence $VERIF_ROOT/replays
 cp /repo/go.sum go.sum
-go build -o /verif/bin/vcheck ./cmd/vcheck || exit 2
-/verif/tools/build_vsched.sh || exit 2
-/verif/tools/build_vcheck_i.sh || exit 2
+go build -o $VERIF_ROOT/bin/vcheck ./cmd/vcheck || exit 2
+$VERIF_ROOT/tools/build_vsched.sh || exit 2
+$VERIF_ROOT/tools/build_vcheck_i.sh || exit 2
 echo "setup ok"
